@@ -3,5 +3,940 @@ import PyCliffordModel.Proofs.StateLemmas
 import PyCliffordModel.Model.Diag
 /-! # Proofs/RandomLemmas — helper lemmas for C16/C18 (diagonalisation generators, random pairs, random Cliffords) -/
 namespace PC
+namespace Rn
+
+/-! ## pointwise access: `getQ`, `setQ`, extensionality -/
+
+theorem getQ_nil (i : Nat) : getQ [] i = (false, false) := by simp [getQ]
+theorem getQ_cons_zero (q : Q) (qs : PStr) : getQ (q :: qs) 0 = q := by simp [getQ]
+theorem getQ_cons_succ (q : Q) (qs : PStr) (i : Nat) : getQ (q :: qs) (i + 1) = getQ qs i := by simp [getQ]
+
+theorem getQ_of_le (g : PStr) (i : Nat) (h : g.length ≤ i) : getQ g i = (false, false) := by
+  simp [getQ, List.getD_eq_getElem?_getD, List.getElem?_eq_none h]
+
+theorem getQ_of_lt (g : PStr) (i : Nat) (h : i < g.length) : getQ g i = g[i] := by
+  simp [getQ, List.getD_eq_getElem?_getD, h]
+
+theorem ext_getQ (a b : PStr) (hl : a.length = b.length) (h : ∀ j, j < a.length → getQ a j = getQ b j) : a = b := by
+  apply List.ext_getElem hl
+  intro i h1 h2
+  have := h i h1
+  rwa [getQ_of_lt a i h1, getQ_of_lt b i h2] at this
+
+theorem length_setQ (g : PStr) (i : Nat) (q : Q) : (setQ g i q).length = g.length := by simp [setQ]
+
+theorem getQ_setQ (g : PStr) (i : Nat) (q : Q) (j : Nat) (hi : i < g.length) :
+    getQ (setQ g i q) j = if j = i then q else getQ g j := by
+  unfold getQ setQ
+  rw [List.getD_eq_getElem?_getD, List.getElem?_set, List.getD_eq_getElem?_getD]
+  by_cases hji : j = i
+  · subst hji; simp [hi]
+  · have : ¬ i = j := fun h => hji h.symm
+    simp [hji, this]
+
+theorem getQ_setQ_self (g : PStr) (i : Nat) (q : Q) (hi : i < g.length) : getQ (setQ g i q) i = q := by
+  rw [getQ_setQ g i q i hi]; simp
+
+theorem getQ_setQ_ne (g : PStr) (i : Nat) (q : Q) (j : Nat) (hji : j ≠ i) : getQ (setQ g i q) j = getQ g j := by
+  unfold getQ setQ
+  rw [List.getD_eq_getElem?_getD, List.getElem?_set, List.getD_eq_getElem?_getD]
+  have : ¬ i = j := fun h => hji h.symm
+  simp [this]
+
+theorem setQ_setQ (g : PStr) (i : Nat) (q r : Q) : setQ (setQ g i q) i r = setQ g i r := by
+  simp [setQ]
+
+theorem setQ_getQ (g : PStr) (i : Nat) : setQ g i (getQ g i) = g := by
+  by_cases hi : i < g.length
+  · apply ext_getQ _ _ (length_setQ _ _ _)
+    intro j _
+    rw [getQ_setQ g i _ j hi]
+    by_cases hji : j = i
+    · subst hji; simp
+    · simp [hji]
+  · simp [setQ, List.set_eq_of_length_le (Nat.le_of_not_lt hi)]
+
+theorem getQ_xorS : ∀ (a b : PStr) (j : Nat), a.length = b.length →
+    getQ (xorS a b) j = xorQ (getQ a j) (getQ b j)
+  | [], [], j, _ => by simp [xorS, getQ_nil, xorQ]
+  | [], _ :: _, _, h => by simp at h
+  | _ :: _, [], _, h => by simp at h
+  | x :: xs, y :: ys, 0, _ => by simp [xorS_cons, getQ_cons_zero]
+  | x :: xs, y :: ys, j + 1, h => by
+    simp only [xorS_cons, getQ_cons_succ]
+    exact getQ_xorS xs ys j (by simpa using h)
+
+theorem getQ_idStr (n j : Nat) : getQ (idStr n) j = (false, false) := by
+  unfold getQ idStr
+  rw [List.getD_eq_getElem?_getD, List.getElem?_replicate]
+  split <;> rfl
+
+theorem getQ_unitZ (n k j : Nat) (hj : j < n) : getQ (unitZ n k) j = (false, j == k) := by
+  unfold getQ unitZ
+  rw [List.getD_eq_getElem?_getD]
+  simp [hj]
+
+theorem getQ_placeQ (n k j : Nat) (q : Q) (hj : j < n) : getQ (placeQ n k q) j = if j = k then q else (false, false) := by
+  unfold getQ placeQ
+  rw [List.getD_eq_getElem?_getD]
+  simp [hj]
+
+theorem length_placeQ (n k : Nat) (q : Q) : (placeQ n k q).length = n := by simp [placeQ]
+
+/-! ## `acqSum` when one qubit is replaced -/
+
+theorem acqSum_setQ_right : ∀ (g h : PStr) (i : Nat) (q : Q), i < h.length →
+    acqSum g (setQ h i q) = acqSum g h - acqQ (getQ g i) (getQ h i) + acqQ (getQ g i) q
+  | [], h, i, q, _ => by simp [acqSum_nil_left, getQ_nil, acqQ_id_left]
+  | _ :: _, [], _, _, hi => by simp at hi
+  | x :: xs, y :: ys, 0, q, _ => by
+    simp only [setQ, List.set_cons_zero, acqSum_cons, getQ_cons_zero]; omega
+  | x :: xs, y :: ys, i + 1, q, hi => by
+    have ih := acqSum_setQ_right xs ys i q (by simpa using hi)
+    simp only [setQ, List.set_cons_succ, acqSum_cons, getQ_cons_succ] at ih ⊢
+    omega
+
+theorem acqSum_setQ_left (g h : PStr) (i : Nat) (q : Q) (hi : i < g.length) :
+    acqSum (setQ g i q) h = acqSum g h - acqQ (getQ g i) (getQ h i) + acqQ q (getQ h i) := by
+  rw [acqSum_antisymm, acqSum_setQ_right h g i q hi, acqSum_antisymm h g, acqQ_antisymm (getQ h i) (getQ g i),
+    acqQ_antisymm (getQ h i) q]
+  omega
+
+/-- a string that vanishes outside qubit `i` only sees qubit `i` of the partner -/
+theorem acqSum_onsite_right : ∀ (g h : PStr) (i : Nat), (∀ j, j ≠ i → getQ h j = (false, false)) →
+    acqSum g h = acqQ (getQ g i) (getQ h i)
+  | [], h, i, _ => by simp [acqSum_nil_left, getQ_nil, acqQ_id_left]
+  | g, [], i, _ => by simp [acqSum_nil_right, getQ_nil, acqQ_id_right]
+  | x :: xs, y :: ys, 0, hz => by
+    have : acqSum xs ys = 0 := by
+      cases xs with
+      | nil => exact acqSum_nil_left _
+      | cons x' xs' =>
+        rw [acqSum_onsite_right (x' :: xs') ys (ys.length) (fun j hj => by
+          have := hz (j + 1) (by omega); rwa [getQ_cons_succ] at this)]
+        rw [getQ_of_le ys _ (Nat.le_refl _), acqQ_id_right]
+    simp [acqSum_cons, getQ_cons_zero, this]
+  | x :: xs, y :: ys, i + 1, hz => by
+    have hy : y = (false, false) := by have := hz 0 (by omega); rwa [getQ_cons_zero] at this
+    rw [acqSum_cons, getQ_cons_succ, getQ_cons_succ, hy, acqQ_id_right,
+      acqSum_onsite_right xs ys i (fun j hj => by
+        have := hz (j + 1) (by omega); rwa [getQ_cons_succ] at this)]
+    omega
+
+theorem acqSum_onsite_left (g h : PStr) (i : Nat) (hz : ∀ j, j ≠ i → getQ g j = (false, false)) :
+    acqSum g h = acqQ (getQ g i) (getQ h i) := by
+  rw [acqSum_antisymm, acqSum_onsite_right h g i hz, ← acqQ_antisymm]
+
+/-! ## `isOnsite`, `anyBit`, `front` -/
+
+theorem nontrivQ_eq_false (q : Q) : nontrivQ q = false ↔ q = (false, false) := by
+  obtain ⟨a, b⟩ := q; cases a <;> cases b <;> simp [nontrivQ]
+
+theorem isOnsite_iff (g : PStr) (i0 : Nat) :
+    isOnsite g i0 = true ↔ ∀ j, j ≠ i0 → getQ g j = (false, false) := by
+  unfold isOnsite
+  rw [List.all_eq_true]
+  constructor
+  · intro h j hj
+    by_cases hl : j < g.length
+    · have := h j (List.mem_range.2 hl)
+      simp only [Bool.or_eq_true, beq_iff_eq, Bool.not_eq_true', nontrivQ_eq_false] at this
+      rcases this with h1 | h1
+      · exact absurd h1 hj
+      · exact h1
+    · exact getQ_of_le g j (Nat.le_of_not_lt hl)
+  · intro h j _
+    by_cases hj : j = i0
+    · simp [hj]
+    · have := h j hj
+      simp only [Bool.or_eq_true, beq_iff_eq, Bool.not_eq_true', nontrivQ_eq_false]
+      exact Or.inr this
+
+theorem anyBit_iff (g : PStr) : anyBit g = true ↔ ∃ j, j < g.length ∧ nontrivQ (getQ g j) = true := by
+  unfold anyBit
+  rw [List.any_eq_true]
+  constructor
+  · rintro ⟨q, hq, hn⟩
+    obtain ⟨j, hj, rfl⟩ := List.getElem_of_mem hq
+    exact ⟨j, hj, by rw [getQ_of_lt g j hj]; exact hn⟩
+  · rintro ⟨j, hj, hn⟩
+    rw [getQ_of_lt g j hj] at hn
+    exact ⟨g[j], List.getElem_mem hj, hn⟩
+
+theorem anyBit_eq_false (g : PStr) (h : anyBit g = false) : g = idStr g.length := by
+  apply ext_getQ _ _ (length_idStr _).symm
+  intro j hj
+  rw [getQ_idStr, ← nontrivQ_eq_false]
+  cases hn : nontrivQ (getQ g j) with
+  | false => rfl
+  | true => rw [(anyBit_iff g).2 ⟨j, hj, hn⟩] at h; cases h
+
+theorem front_spec (g : PStr) (h : anyBit g = true) :
+    front g < g.length ∧ nontrivQ (getQ g (front g)) = true := by
+  unfold front
+  cases hf : g.findIdx? nontrivQ with
+  | none =>
+    exfalso
+    rw [List.findIdx?_eq_none_iff] at hf
+    obtain ⟨j, hj, hn⟩ := (anyBit_iff g).1 h
+    rw [getQ_of_lt g j hj, hf _ (List.getElem_mem hj)] at hn
+    cases hn
+  | some i =>
+    obtain ⟨hi, hp, _⟩ := List.findIdx?_eq_some_iff_getElem.1 hf
+    exact ⟨hi, by rw [getQ_of_lt g i hi]; exact hp⟩
+
+/-! ## the two generators of `pauli_diagonalize1/2` -/
+
+theorem cyc_anti (q : Q) (h : nontrivQ q = true) : acqQ (q.1 != q.2, q.2 != (q.1 != q.2)) q % 2 = 1 := by
+  obtain ⟨a, b⟩ := q; revert h; cases a <;> cases b <;> decide
+
+theorem length_diagGenB (g : PStr) (i0 : Nat) : (diagGenB g i0).length = g.length := length_setQ _ _ _
+
+theorem length_diagGenA (g : PStr) (i0 : Nat) : (diagGenA g i0).length = g.length := by
+  unfold diagGenA
+  simp only
+  split <;> simp [length_setQ]
+
+/-- second stage: `g ⊕ Z_{i0}` anticommutes with `g` when the `x` bit at `i0` is set; the rotation gives `Z_{i0}` -/
+theorem diagGenB_spec (g : PStr) (i0 : Nat) (hi : i0 < g.length) (hx : (getQ g i0).1 = true) :
+    acq (diagGenB g i0) g = 1 ∧ xorS g (diagGenB g i0) = unitZ g.length i0 := by
+  refine ⟨?_, ?_⟩
+  · unfold acq diagGenB
+    rw [acqSum_setQ_left g g i0 _ hi, acqSum_self, acqQ_self]
+    generalize getQ g i0 = q at hx
+    obtain ⟨a, b⟩ := q
+    simp only at hx; subst hx
+    cases b <;> decide
+  · apply ext_getQ
+    · rw [length_xorS_eq _ _ (length_diagGenB g i0).symm, Tr.length_unitZ]
+    · intro j hj
+      rw [length_xorS_eq _ _ (length_diagGenB g i0).symm] at hj
+      rw [getQ_xorS _ _ _ (length_diagGenB g i0).symm, getQ_unitZ _ _ _ hj]
+      unfold diagGenB
+      rw [getQ_setQ g i0 _ j hi]
+      by_cases hji : j = i0
+      · subst hji
+        generalize getQ g j = q at hx
+        obtain ⟨a, b⟩ := q
+        simp only at hx; subst hx
+        cases b <;> simp [xorQ]
+      · simp [hji, xorQ_self]
+
+/-- first stage: the generator anticommutes with `g`, and `g ⊕ gen` has its `x` bit set at `i0` -/
+theorem diagGenA_spec (g : PStr) (i0 : Nat) (hi : i0 < g.length) (hany : anyBit g = true)
+    (hx : (getQ g i0).1 = false) :
+    acq (diagGenA g i0) g = 1 ∧ (getQ (xorS g (diagGenA g i0)) i0).1 = true := by
+  have hlen := length_diagGenA g i0
+  rw [getQ_xorS _ _ _ hlen.symm]
+  unfold diagGenA
+  simp only
+  cases hz : (getQ g i0).2 with
+  | true =>
+    simp only [Bool.not_true, Bool.false_eq_true, if_false, hz]
+    refine ⟨?_, ?_⟩
+    · unfold acq
+      rw [acqSum_setQ_left g g i0 _ hi, acqSum_self, acqQ_self]
+      generalize getQ g i0 = q at hx hz
+      obtain ⟨a, b⟩ := q
+      simp only at hx hz; subst hx; subst hz
+      decide
+    · rw [getQ_setQ_self g i0 _ hi]
+      generalize getQ g i0 = q at hx hz
+      obtain ⟨a, b⟩ := q
+      simp only at hx hz; subst hx; subst hz
+      rfl
+  | false =>
+    simp only [Bool.not_false, if_true]
+    obtain ⟨hf, hn⟩ := front_spec g hany
+    have hq0 : getQ g i0 = (false, false) := by
+      generalize getQ g i0 = q at hx hz
+      obtain ⟨a, b⟩ := q
+      simp only at hx hz; subst hx; subst hz; rfl
+    have hne : i0 ≠ front g := by
+      intro h; rw [← h, hq0] at hn; cases hn
+    have hi' : i0 < (setQ g (front g) ((getQ g (front g)).1 != (getQ g (front g)).2,
+        (getQ g (front g)).2 != ((getQ g (front g)).1 != (getQ g (front g)).2))).length := by
+      rw [length_setQ]; exact hi
+    refine ⟨?_, ?_⟩
+    · unfold acq
+      rw [acqSum_setQ_left _ g i0 _ hi', hq0, acqQ_id_right, acqQ_id_right,
+        acqSum_setQ_left g g (front g) _ hf, acqSum_self, acqQ_self]
+      have := cyc_anti (getQ g (front g)) hn
+      omega
+    · rw [getQ_setQ_self _ i0 _ hi', hq0]; rfl
+
+/-! ## signless rotations -/
+
+/-- apply a list of signless rotations in order (`rotSeqS` of `Properties/C16`) -/
+def rotS (gens : List PStr) (h : PStr) : PStr := gens.foldl (fun x g => rotateSignless g x) h
+
+theorem rotS_nil (h : PStr) : rotS [] h = h := rfl
+theorem rotS_cons (g : PStr) (gs : List PStr) (h : PStr) : rotS (g :: gs) h = rotS gs (rotateSignless g h) := rfl
+theorem rotS_append (gs hs : List PStr) (h : PStr) : rotS (gs ++ hs) h = rotS hs (rotS gs h) := by
+  simp [rotS, List.foldl_append]
+
+theorem rotateSignless_anti (g h : PStr) (ha : acq g h = 1) : rotateSignless g h = xorS h g := by
+  simp [rotateSignless, (anti_iff _ _).2 ha]
+theorem rotateSignless_comm (g h : PStr) (ha : acq g h = 0) : rotateSignless g h = h := by
+  simp [rotateSignless, (anti_eq_false_iff _ _).2 ha]
+
+theorem length_rotateSignless (g h : PStr) (hl : g.length = h.length) : (rotateSignless g h).length = h.length := by
+  have := length_rotate ⟨g, 0⟩ ⟨h, 0⟩ hl
+  rwa [rotate_g] at this
+
+theorem acq_rotateSignless (g a b : PStr) (ha : g.length = a.length) (hb : g.length = b.length) :
+    acq (rotateSignless g a) (rotateSignless g b) = acq a b := by
+  have := rotate_acq ⟨g, 0⟩ ⟨a, 0⟩ ⟨b, 0⟩ ha hb
+  rwa [rotate_g, rotate_g] at this
+
+theorem length_rotS : ∀ (gs : List PStr) (h : PStr), (∀ g ∈ gs, g.length = h.length) → (rotS gs h).length = h.length
+  | [], _, _ => rfl
+  | g :: gs, h, hl => by
+    have h1 := length_rotateSignless g h (hl g (by simp))
+    rw [rotS_cons, length_rotS gs _ (fun g' hg' => by rw [h1]; exact hl g' (by simp [hg'])), h1]
+
+theorem acq_rotS : ∀ (gs : List PStr) (a b : PStr), (∀ g ∈ gs, g.length = a.length) → a.length = b.length →
+    acq (rotS gs a) (rotS gs b) = acq a b
+  | [], _, _, _, _ => rfl
+  | g :: gs, a, b, hl, hab => by
+    have h1 := length_rotateSignless g a (hl g (by simp))
+    have h2 := length_rotateSignless g b ((hl g (by simp)).trans hab)
+    rw [rotS_cons, rotS_cons, acq_rotS gs _ _ (fun g' hg' => by rw [h1]; exact hl g' (by simp [hg']))
+      (by rw [h1, h2]; exact hab), acq_rotateSignless g a b (hl g (by simp)) ((hl g (by simp)).trans hab)]
+
+/-! ## `pauli_diagonalize1` on strings -/
+
+theorem onsite_unitZ (g : PStr) (i0 : Nat) (hi : i0 < g.length) (hany : anyBit g = true)
+    (ho : isOnsite g i0 = true) (hx : (getQ g i0).1 = false) : g = unitZ g.length i0 := by
+  rw [isOnsite_iff] at ho
+  obtain ⟨j, hj, hn⟩ := (anyBit_iff g).1 hany
+  have hji : j = i0 := by
+    by_cases h : j = i0
+    · exact h
+    · rw [ho j h] at hn; cases hn
+  subst hji
+  apply ext_getQ _ _ (Tr.length_unitZ _ _).symm
+  intro k hk
+  rw [getQ_unitZ _ _ _ hk]
+  by_cases hkj : k = j
+  · subst hkj
+    generalize getQ g k = q at hx hn
+    obtain ⟨a, b⟩ := q
+    simp only at hx; subst hx
+    cases b
+    · cases hn
+    · simp
+  · rw [ho k hkj]; simp [hkj]
+
+theorem diag1_strings (g : PStr) (i0 : Nat) (hi : i0 < g.length) (hany : anyBit g = true) :
+    rotS (diagonalize1 g i0) g = unitZ g.length i0 ∧ (∀ h ∈ diagonalize1 g i0, h.length = g.length) := by
+  unfold diagonalize1
+  by_cases hA : (isOnsite g i0 && !(getQ g i0).1) = true
+  · simp only [hA, Bool.not_true, Bool.false_eq_true, if_false]
+    simp only [Bool.and_eq_true, Bool.not_eq_true'] at hA
+    exact ⟨onsite_unitZ g i0 hi hany hA.1 hA.2, by simp⟩
+  · have hA' : (isOnsite g i0 && !(getQ g i0).1) = false := by simpa using hA
+    simp only [hA', Bool.not_false, if_true]
+    cases hx : (getQ g i0).1 with
+    | false =>
+      simp only [Bool.not_false, if_true]
+      obtain ⟨ha, hx'⟩ := diagGenA_spec g i0 hi hany hx
+      have hlA := length_diagGenA g i0
+      have hl1 : (xorS g (diagGenA g i0)).length = g.length := length_xorS_eq _ _ hlA.symm
+      obtain ⟨hb, hz⟩ := diagGenB_spec (xorS g (diagGenA g i0)) i0 (by rw [hl1]; exact hi) hx'
+      refine ⟨?_, ?_⟩
+      · rw [rotS_cons, rotS_cons, rotS_nil, rotateSignless_anti _ _ ha, rotateSignless_anti _ _ hb, hz, hl1]
+      · intro h hh
+        simp only [List.mem_cons, List.not_mem_nil, or_false] at hh
+        rcases hh with rfl | rfl
+        · exact hlA
+        · rw [length_diagGenB, hl1]
+    | true =>
+      simp only [Bool.not_true, Bool.false_eq_true, if_false]
+      obtain ⟨hb, hz⟩ := diagGenB_spec g i0 hi hx
+      refine ⟨?_, ?_⟩
+      · rw [rotS_cons, rotS_nil, rotateSignless_anti _ _ hb, hz]
+      · intro h hh
+        simp only [List.mem_cons, List.not_mem_nil, or_false] at hh
+        subst hh
+        exact length_diagGenB g i0
+
+/-! ## signed rotations: strings follow `rotS`, the phase keeps its parity -/
+
+theorem rotate_p_parity (G P : Pauli) (hG : G.p % 2 = 0) : (rotate G P).p % 2 = P.p % 2 := by
+  rcases acq_bit G.g P.g with h | h
+  · rw [rotate_of_acq_zero G P h]
+  · rw [rotate_of_acq_one G P h]
+    have hpar := ipow_parity P.g G.g
+    rw [acq_symm, h] at hpar
+    simp only
+    omega
+
+/-- apply a list of rotations with phase-0 generators in order (`rotSeq` of `Properties/C16`) -/
+def rotP (gens : List PStr) (P : Pauli) : Pauli := gens.foldl (fun Q g => rotate ⟨g, 0⟩ Q) P
+
+theorem rotP_spec : ∀ (gens : List PStr) (P : Pauli),
+    (rotP gens P).g = rotS gens P.g ∧ (rotP gens P).p % 2 = P.p % 2
+  | [], _ => ⟨rfl, rfl⟩
+  | g :: gs, P => by
+    obtain ⟨h1, h2⟩ := rotP_spec gs (rotate ⟨g, 0⟩ P)
+    refine ⟨?_, ?_⟩
+    · show (rotP gs (rotate ⟨g, 0⟩ P)).g = _
+      rw [h1, rotate_g, rotS_cons]
+    · show (rotP gs (rotate ⟨g, 0⟩ P)).p % 2 = _
+      rw [h2, rotate_p_parity _ _ (by rfl)]
+
+/-! ## `pauli_diagonalize2` -/
+
+/-- the first stage of `pauli_diagonalize2` is `pauli_diagonalize1` applied to both strings -/
+theorem diagonalize2_eq (g1 g2 : PStr) (i0 : Nat) (hi : i0 < g1.length) (hany : anyBit g1 = true) :
+    diagonalize2 g1 g2 i0 =
+      (if !isOnsite (rotS (diagonalize1 g1 i0) g2) i0 then
+        (diagonalize1 g1 i0 ++ [setQ (rotS (diagonalize1 g1 i0) g2) i0 (false, true)], rotS (diagonalize1 g1 i0) g1,
+          xorS (rotS (diagonalize1 g1 i0) g2) (setQ (rotS (diagonalize1 g1 i0) g2) i0 (false, true)))
+      else (diagonalize1 g1 i0, rotS (diagonalize1 g1 i0) g1, rotS (diagonalize1 g1 i0) g2)) := by
+  unfold diagonalize2 diagonalize1
+  by_cases hA : (isOnsite g1 i0 && !(getQ g1 i0).1) = true
+  · simp only [hA, Bool.not_true, Bool.false_eq_true, if_false, rotS_nil, List.nil_append]
+  · have hA' : (isOnsite g1 i0 && !(getQ g1 i0).1) = false := by simpa using hA
+    simp only [hA', Bool.not_false, if_true]
+    cases hx : (getQ g1 i0).1 with
+    | false =>
+      simp only [Bool.not_false, if_true]
+      obtain ⟨ha, hx'⟩ := diagGenA_spec g1 i0 hi hany hx
+      have hlA := length_diagGenA g1 i0
+      have hl1 : (xorS g1 (diagGenA g1 i0)).length = g1.length := length_xorS_eq _ _ hlA.symm
+      obtain ⟨hb, hz⟩ := diagGenB_spec (xorS g1 (diagGenA g1 i0)) i0 (by rw [hl1]; exact hi) hx'
+      simp only [rotS_cons, rotS_nil, rotateSignless_anti _ _ ha, rotateSignless_anti _ _ hb, List.cons_append,
+        List.nil_append]
+    | true =>
+      simp only [Bool.not_true, Bool.false_eq_true, if_false]
+      obtain ⟨hb, hz⟩ := diagGenB_spec g1 i0 hi hx
+      simp only [rotS_cons, rotS_nil, rotateSignless_anti _ _ hb, List.nil_append]
+
+theorem anyBit_of_acq (g1 g2 : PStr) (ha : acq g1 g2 = 1) : anyBit g1 = true := by
+  cases h : anyBit g1 with
+  | true => rfl
+  | false =>
+    rw [anyBit_eq_false g1 h, acq_idStr_left] at ha
+    cases ha
+
+theorem unitZ_onsite (n i0 : Nat) : ∀ j, j ≠ i0 → getQ (unitZ n i0) j = (false, false) := by
+  intro j hj
+  by_cases hjn : j < n
+  · rw [getQ_unitZ _ _ _ hjn]; simp [hj]
+  · exact getQ_of_le _ _ (by rw [Tr.length_unitZ]; omega)
+
+theorem acqZ_x (q : Q) : acqQ (false, true) q % 2 = 1 ↔ q.1 = true := by
+  obtain ⟨a, b⟩ := q; cases a <;> cases b <;> decide
+
+theorem diag2_spec (g1 g2 : PStr) (i0 : Nat) (hl : g1.length = g2.length) (hi : i0 < g1.length)
+    (ha : acq g1 g2 = 1) :
+    (diagonalize2 g1 g2 i0).2.1 = unitZ g1.length i0 ∧ isOnsite (diagonalize2 g1 g2 i0).2.2 i0 = true ∧
+    (getQ (diagonalize2 g1 g2 i0).2.2 i0).1 = true ∧ (diagonalize2 g1 g2 i0).2.2.length = g1.length ∧
+    (diagonalize2 g1 g2 i0).2.1 = rotS (diagonalize2 g1 g2 i0).1 g1 ∧
+    (diagonalize2 g1 g2 i0).2.2 = rotS (diagonalize2 g1 g2 i0).1 g2 ∧
+    (∀ h ∈ (diagonalize2 g1 g2 i0).1, h.length = g1.length) := by
+  have hany := anyBit_of_acq g1 g2 ha
+  obtain ⟨hz, hlen⟩ := diag1_strings g1 i0 hi hany
+  rw [diagonalize2_eq g1 g2 i0 hi hany]
+  generalize diagonalize1 g1 i0 = gs at hz hlen
+  have hb : (rotS gs g2).length = g1.length := by
+    rw [length_rotS gs g2 (fun g hg => by rw [hlen g hg, hl]), hl]
+  have hab : acq (rotS gs g1) (rotS gs g2) = 1 := by rw [acq_rotS gs g1 g2 hlen hl, ha]
+  obtain ⟨b, hbdef⟩ : ∃ b, b = rotS gs g2 := ⟨_, rfl⟩
+  rw [← hbdef] at hb hab ⊢
+  rw [hz] at hab ⊢
+  have hbx : (getQ b i0).1 = true := by
+    unfold acq at hab
+    rw [acqSum_onsite_left _ b i0 (unitZ_onsite _ _), getQ_unitZ _ _ _ hi] at hab
+    simp only [beq_self_eq_true] at hab
+    exact (acqZ_x _).1 hab
+  have hi' : i0 < b.length := by rw [hb]; exact hi
+  cases ho : isOnsite b i0 with
+  | true =>
+    simp only [Bool.not_true, Bool.false_eq_true, if_false]
+    exact ⟨by trivial, ho, hbx, hb, hz.symm, hbdef, hlen⟩
+  | false =>
+    simp only [Bool.not_false, if_true]
+    have hlg : (setQ b i0 (false, true)).length = b.length := length_setQ _ _ _
+    refine ⟨by trivial, ?_, ?_, ?_, ?_, ?_, ?_⟩
+    · rw [isOnsite_iff]
+      intro j hj
+      rw [getQ_xorS _ _ _ hlg.symm, getQ_setQ_ne _ _ _ _ hj, xorQ_self]
+    · rw [getQ_xorS _ _ _ hlg.symm, getQ_setQ_self _ _ _ hi']
+      simp [xorQ, hbx]
+    · rw [length_xorS_eq _ _ hlg.symm, hb]
+    · rw [rotS_append, hz, rotS_cons, rotS_nil, rotateSignless_comm]
+      unfold acq
+      rw [acqSum_onsite_right _ _ i0 (unitZ_onsite _ _), getQ_setQ_self _ _ _ hi', getQ_unitZ _ _ _ hi]
+      simp only [beq_self_eq_true]
+      decide
+    · rw [rotS_append, rotS_cons, rotS_nil, ← hbdef, rotateSignless_anti]
+      unfold acq
+      rw [acqSum_setQ_left b b i0 _ hi', acqSum_self, acqQ_self]
+      have := (acqZ_x (getQ b i0)).2 hbx
+      omega
+    · intro h hh
+      rw [List.mem_append] at hh
+      rcases hh with hh | hh
+      · exact hlen h hh
+      · simp only [List.mem_cons, List.not_mem_nil, or_false] at hh
+        rw [hh, hlg, hb]
+
+/-! ## `random_pair` -/
+
+theorem takeBits_some (k : Nat) (tape b t : List Bool) (h : takeBits k tape = some (b, t)) :
+    b.length = k ∧ tape = b ++ t := by
+  unfold takeBits at h
+  split at h
+  · cases h
+  · rename_i hk
+    simp only [Option.some.injEq, Prod.mk.injEq] at h
+    obtain ⟨rfl, rfl⟩ := h
+    exact ⟨by rw [List.length_take]; omega, (List.take_append_drop k tape).symm⟩
+
+theorem takeBits_append (k : Nat) (b t : List Bool) (h : b.length = k) : takeBits k (b ++ t) = some (b, t) := by
+  unfold takeBits
+  rw [if_neg (by simp; omega)]
+  subst h
+  simp
+
+theorem resample_spec (n : Nat) : ∀ (fuel : Nat) (g : PStr) (tape : List Bool) (g' : PStr) (t' : List Bool),
+    resample n fuel g tape = some (g', t') → g.length = n → anyBit g' = true ∧ g'.length = n
+  | 0, g, tape, g', t', h, hl => by
+    unfold resample at h
+    split at h
+    · rename_i ha
+      simp only [Option.some.injEq, Prod.mk.injEq] at h
+      obtain ⟨rfl, rfl⟩ := h
+      exact ⟨ha, hl⟩
+    · cases h
+  | fuel + 1, g, tape, g', t', h, hl => by
+    unfold resample at h
+    split at h
+    · rename_i ha
+      simp only [Option.some.injEq, Prod.mk.injEq] at h
+      obtain ⟨rfl, rfl⟩ := h
+      exact ⟨ha, hl⟩
+    · split at h
+      · cases h
+      · rename_i b tape' hb
+        exact resample_spec n fuel _ _ _ _ h (Cp.length_unflat b n (takeBits_some _ _ _ _ hb).1)
+
+theorem resample_of_anyBit (n fuel : Nat) (g : PStr) (tape : List Bool) (h : anyBit g = true) :
+    resample n fuel g tape = some (g, tape) := by
+  cases fuel <;> simp [resample, h]
+
+/-- the one-qubit correction of `random_pair` -/
+def flipQ (a b : Q) : Q := (b.1 != a.2, (b.2 != a.1) != a.2)
+/-- the second string of `random_pair` as a function of the first string and the raw draw -/
+def fixP (g1 x : PStr) : PStr :=
+  if acq g1 x = 0 then setQ x (front g1) (flipQ (getQ g1 (front g1)) (getQ x (front g1))) else x
+
+theorem randomPair_eq (n : Nat) (tape : List Bool) : randomPair n tape =
+    match takeBits (2 * n) tape with
+    | none => none
+    | some (b1, t1) =>
+      match takeBits (2 * n) t1 with
+      | none => none
+      | some (b2, t2) =>
+        match resample n t2.length (unflat b1) t2 with
+        | none => none
+        | some (g1, t3) => some ((g1, fixP g1 (unflat b2)), t3) := by
+  unfold randomPair
+  cases takeBits (2 * n) tape with
+  | none => rfl
+  | some p1 =>
+    obtain ⟨b1, t1⟩ := p1
+    simp only
+    cases takeBits (2 * n) t1 with
+    | none => rfl
+    | some p2 =>
+      obtain ⟨b2, t2⟩ := p2
+      simp only
+      cases resample n t2.length (unflat b1) t2 with
+      | none => rfl
+      | some p3 =>
+        obtain ⟨g1, t3⟩ := p3
+        simp only [fixP, flipQ]
+        split <;> rfl
+
+theorem flipQ_anti (a b : Q) (ha : nontrivQ a = true) : (acqQ a (flipQ a b) - acqQ a b) % 2 = 1 := by
+  obtain ⟨a1, a2⟩ := a; obtain ⟨b1, b2⟩ := b
+  revert ha; cases a1 <;> cases a2 <;> cases b1 <;> cases b2 <;> decide
+
+theorem flipQ_flipQ (a b : Q) : flipQ a (flipQ a b) = b := by
+  obtain ⟨a1, a2⟩ := a; obtain ⟨b1, b2⟩ := b
+  cases a1 <;> cases a2 <;> cases b1 <;> cases b2 <;> rfl
+
+theorem length_fixP (g1 x : PStr) : (fixP g1 x).length = x.length := by
+  unfold fixP; split
+  · exact length_setQ _ _ _
+  · rfl
+
+/-- flipping the partner at the first non-trivial qubit of `g1` toggles the commutation with `g1` -/
+theorem acq_flip (g1 x : PStr) (hl : g1.length = x.length) (hany : anyBit g1 = true) :
+    acq g1 (setQ x (front g1) (flipQ (getQ g1 (front g1)) (getQ x (front g1)))) = (acq g1 x + 1) % 2 := by
+  obtain ⟨hf, hn⟩ := front_spec g1 hany
+  unfold acq
+  rw [acqSum_setQ_right g1 x _ _ (by rw [← hl]; exact hf)]
+  have := flipQ_anti (getQ g1 (front g1)) (getQ x (front g1)) hn
+  omega
+
+theorem acq_fixP (g1 x : PStr) (hl : g1.length = x.length) (hany : anyBit g1 = true) : acq g1 (fixP g1 x) = 1 := by
+  unfold fixP
+  split
+  · rename_i h0
+    rw [acq_flip g1 x hl hany, h0]; rfl
+  · rename_i h0
+    rcases acq_bit g1 x with h | h
+    · exact absurd h h0
+    · exact h
+
+theorem randomPair_spec (n : Nat) (tape rest : List Bool) (g1 g2 : PStr)
+    (h : randomPair n tape = some ((g1, g2), rest)) :
+    acq g1 g2 = 1 ∧ g1.length = n ∧ g2.length = n ∧ anyBit g1 = true := by
+  rw [randomPair_eq] at h
+  split at h
+  · cases h
+  · rename_i b1 t1 hb1
+    split at h
+    · cases h
+    · rename_i b2 t2 hb2
+      split at h
+      · cases h
+      · rename_i g1' t3 hr
+        simp only [Option.some.injEq, Prod.mk.injEq] at h
+        obtain ⟨⟨rfl, rfl⟩, rfl⟩ := h
+        obtain ⟨hany, hl1⟩ := resample_spec n _ _ _ _ _ hr (Cp.length_unflat b1 n (takeBits_some _ _ _ _ hb1).1)
+        have hl2 : (unflat b2).length = n := Cp.length_unflat b2 n (takeBits_some _ _ _ _ hb2).1
+        exact ⟨acq_fixP _ _ (hl1.trans hl2.symm) hany, hl1, by rw [length_fixP, hl2], hany⟩
+
+/-! ## commutation pattern of a list of strings, `signedMap` -/
+
+/-- a string as an operator with phase 0 -/
+def toP (g : PStr) : Pauli := ⟨g, 0⟩
+
+/-- canonical commutation relations of a list of strings (index form) -/
+def SymS (rows : List PStr) : Prop := ∀ i j, i < rows.length → j < rows.length →
+    acq (rows.getD i []) (rows.getD j []) = if i / 2 = j / 2 ∧ i ≠ j then 1 else 0
+
+theorem symS_iff (rows : List PStr) : SymS rows ↔ Tr.Sympl (rows.map toP) := by
+  constructor
+  · intro h i j hi hj
+    have hi' : i < rows.length := by simpa using hi
+    have hj' : j < rows.length := by simpa using hj
+    rw [Cp.rowAt_map' toP rows [] i hi', Cp.rowAt_map' toP rows [] j hj']
+    exact h i j hi' hj'
+  · intro h i j hi hj
+    have := h i j (by simpa using hi) (by simpa using hj)
+    rwa [Cp.rowAt_map' toP rows [] i hi, Cp.rowAt_map' toP rows [] j hj] at this
+
+theorem SymS_cons (a b : PStr) (rest : List PStr) (hab : acq a b = 1)
+    (hx : ∀ c ∈ rest, acq a c = 0 ∧ acq b c = 0) (hr : SymS rest) : SymS (a :: b :: rest) := by
+  rw [symS_iff] at hr ⊢
+  simp only [List.map_cons]
+  apply Tr.Sympl_cons _ _ _ hab _ hr
+  intro c hc
+  obtain ⟨c', hc', rfl⟩ := List.mem_map.1 hc
+  exact hx c' hc'
+
+theorem SymS_map_lift (rest : List PStr) (hr : SymS rest) : SymS (rest.map fun r => (false, false) :: r) := by
+  rw [symS_iff] at hr ⊢
+  have := Tr.Sympl_map_lift _ hr
+  rw [List.map_map] at this ⊢
+  exact this
+
+theorem SymS_map_rot (g : PStr) (rows : List PStr) (hl : ∀ r ∈ rows, g.length = r.length) (hr : SymS rows) :
+    SymS (rows.map (rotateSignless g)) := by
+  intro i j hi hj
+  have hi' : i < rows.length := by simpa using hi
+  have hj' : j < rows.length := by simpa using hj
+  have e : ∀ k, k < rows.length → (rows.map (rotateSignless g)).getD k [] = rotateSignless g (rows.getD k []) := by
+    intro k hk
+    simp [List.getD_eq_getElem?_getD, List.getElem?_map, List.getElem?_eq_getElem hk]
+  have m : ∀ k, k < rows.length → rows.getD k [] ∈ rows := by
+    intro k hk
+    simp [List.getD_eq_getElem?_getD, List.getElem?_eq_getElem hk]
+  rw [e i hi', e j hj', acq_rotateSignless g _ _ (hl _ (m i hi')) (hl _ (m j hj'))]
+  exact hr i j hi' hj'
+
+theorem signedMap_valid (rows : List PStr) (signs : List Bool) (n : Nat) (hlen : rows.length = 2 * n)
+    (hl : ∀ r ∈ rows, r.length = n) (hs : SymS rows) : ValidMap (signedMap rows signs) n := by
+  have hrow : ∀ i, i < rows.length →
+      rowAt (signedMap rows signs) i = ⟨rows.getD i [], if signs.getD i false then 2 else 0⟩ := by
+    intro i hi
+    simp [rowAt, signedMap, List.getD_eq_getElem?_getD, List.getElem?_mapIdx, List.getElem?_eq_getElem hi]
+  refine ⟨by simp [signedMap, hlen], ?_, ?_⟩
+  · intro R hR
+    unfold signedMap at hR
+    obtain ⟨i, hi, rfl⟩ := List.mem_mapIdx.1 hR
+    refine ⟨hl _ (List.getElem_mem hi), ?_⟩
+    simp only
+    split <;> rfl
+  · intro i j hi hj
+    rw [hrow i (by omega), hrow j (by omega)]
+    exact hs i j (by omega) (by omega)
+
+/-! ## `random_pauli` -/
+
+theorem placeQ_onsite (n k : Nat) (q : Q) : ∀ j, j ≠ k → getQ (placeQ n k q) j = (false, false) := by
+  intro j hj
+  by_cases hjn : j < n
+  · rw [getQ_placeQ _ _ _ _ hjn]; simp [hj]
+  · exact getQ_of_le _ _ (by rw [length_placeQ]; omega)
+
+theorem acq_placeQ (n j j' : Nat) (a b : Q) (hj : j < n) :
+    acq (placeQ n j a) (placeQ n j' b) = if j = j' then acqQ a b % 2 else 0 := by
+  unfold acq
+  rw [acqSum_onsite_left _ _ j (placeQ_onsite n j a), getQ_placeQ _ _ _ _ hj, getQ_placeQ _ _ _ _ hj]
+  by_cases h : j = j'
+  · simp [h]
+  · simp [h, acqQ_id_right]
+
+theorem randomPauli_spec (n : Nat) : ∀ (k : Nat) (tape : List Bool) (rows : List PStr) (rest : List Bool),
+    randomPauli n k tape = some (rows, rest) → k ≤ n →
+    rows.length = 2 * k ∧ (∀ i, i < 2 * k → ∃ q, rows.getD i [] = placeQ n (i / 2) q) ∧
+    (∀ j, j < k → acq (rows.getD (2 * j) []) (rows.getD (2 * j + 1) []) = 1)
+  | 0, tape, rows, rest, h, _ => by
+    simp only [randomPauli, Option.some.injEq, Prod.mk.injEq] at h
+    obtain ⟨rfl, rfl⟩ := h
+    exact ⟨rfl, fun i hi => by omega, fun j hj => by omega⟩
+  | k + 1, tape, rows, rest, h, hk => by
+    unfold randomPauli at h
+    split at h
+    · cases h
+    · rename_i rows0 t hrec
+      obtain ⟨hlen, hq, hp⟩ := randomPauli_spec n k tape rows0 t hrec (by omega)
+      split at h
+      · cases h
+      · rename_i g1 g2 t' hpair
+        simp only [Option.some.injEq, Prod.mk.injEq] at h
+        obtain ⟨rfl, rfl⟩ := h
+        obtain ⟨ha, hl1, hl2, _⟩ := randomPair_spec 1 t t' g1 g2 hpair
+        have hA : acq (placeQ n k (getQ g1 0)) (placeQ n k (getQ g2 0)) = 1 := by
+          rw [acq_placeQ n k k _ _ (by omega), if_pos rfl]
+          match g1, g2, hl1, hl2, ha with
+          | [x], [y], _, _, ha =>
+            simp only [getQ_cons_zero]
+            simpa [acq, acqSum] using ha
+        have hlo : ∀ i, i < 2 * k →
+            (rows0 ++ [placeQ n k (getQ g1 0), placeQ n k (getQ g2 0)]).getD i [] = rows0.getD i [] := by
+          intro i hi
+          rw [List.getD_eq_getElem?_getD, List.getD_eq_getElem?_getD, List.getElem?_append_left (by omega)]
+        have h0 : (rows0 ++ [placeQ n k (getQ g1 0), placeQ n k (getQ g2 0)]).getD (2 * k) [] =
+            placeQ n k (getQ g1 0) := by
+          rw [List.getD_eq_getElem?_getD, List.getElem?_append_right (by omega), hlen]; simp
+        have h1 : (rows0 ++ [placeQ n k (getQ g1 0), placeQ n k (getQ g2 0)]).getD (2 * k + 1) [] =
+            placeQ n k (getQ g2 0) := by
+          rw [List.getD_eq_getElem?_getD, List.getElem?_append_right (by omega), hlen]
+          have : 2 * k + 1 - 2 * k = 1 := by omega
+          simp [this]
+        refine ⟨by simp [hlen]; omega, ?_, ?_⟩
+        · intro i hi
+          by_cases hi' : i < 2 * k
+          · rw [hlo i hi']; exact hq i hi'
+          · by_cases hi2 : i = 2 * k
+            · subst hi2; rw [h0]; exact ⟨_, by congr 1; omega⟩
+            · have : i = 2 * k + 1 := by omega
+              subst this; rw [h1]; exact ⟨_, by congr 1; omega⟩
+        · intro j hj
+          by_cases hj' : j < k
+          · rw [hlo _ (by omega), hlo _ (by omega)]; exact hp j hj'
+          · have : j = k := by omega
+            subst this; rw [h0, h1]; exact hA
+
+theorem randomPauli_symS (n : Nat) (tape : List Bool) (rows : List PStr) (rest : List Bool)
+    (h : randomPauli n n tape = some (rows, rest)) :
+    rows.length = 2 * n ∧ (∀ r ∈ rows, r.length = n) ∧ SymS rows := by
+  obtain ⟨hlen, hq, hp⟩ := randomPauli_spec n n tape rows rest h (Nat.le_refl _)
+  refine ⟨hlen, ?_, ?_⟩
+  · intro r hr
+    obtain ⟨i, hi, rfl⟩ := List.getElem_of_mem hr
+    obtain ⟨q, hq'⟩ := hq i (by omega)
+    rw [List.getD_eq_getElem?_getD, List.getElem?_eq_getElem hi, Option.getD_some] at hq'
+    rw [hq', length_placeQ]
+  · intro i j hi hj
+    rw [hlen] at hi hj
+    obtain ⟨qi, hqi⟩ := hq i hi
+    obtain ⟨qj, hqj⟩ := hq j hj
+    by_cases hij : i / 2 = j / 2
+    · by_cases he : i = j
+      · subst he; rw [acq_self, if_neg (by simp)]
+      · rw [if_pos ⟨hij, he⟩]
+        by_cases hlt : i < j
+        · have e1 : i = 2 * (i / 2) := by omega
+          have e2 : j = 2 * (i / 2) + 1 := by omega
+          rw [e1, e2]; exact hp (i / 2) (by omega)
+        · have e1 : j = 2 * (j / 2) := by omega
+          have e2 : i = 2 * (j / 2) + 1 := by omega
+          rw [e1, e2, acq_symm]; exact hp (j / 2) (by omega)
+    · rw [if_neg (fun h => hij h.1), hqi, hqj, acq_placeQ n _ _ _ _ (by omega), if_neg hij]
+
+/-! ## `random_clifford` -/
+
+theorem foldl_rot_spec (n m : Nat) : ∀ (gs : List PStr) (rows : List PStr), (∀ g ∈ gs, g.length = n) →
+    rows.length = m → (∀ r ∈ rows, r.length = n) → SymS rows →
+    (gs.foldl (fun rs g => rs.map (rotateSignless g)) rows).length = m ∧
+    (∀ r ∈ gs.foldl (fun rs g => rs.map (rotateSignless g)) rows, r.length = n) ∧
+    SymS (gs.foldl (fun rs g => rs.map (rotateSignless g)) rows)
+  | [], rows, _, hm, hl, hs => ⟨hm, hl, hs⟩
+  | g :: gs, rows, hg, hm, hl, hs => by
+    rw [List.foldl_cons]
+    have hgl := hg g (by simp)
+    apply foldl_rot_spec n m gs _ (fun g' hg' => hg g' (by simp [hg'])) (by simpa using hm)
+    · intro r hr
+      obtain ⟨r', hr', rfl⟩ := List.mem_map.1 hr
+      rw [length_rotateSignless g r' (by rw [hgl, hl r' hr']), hl r' hr']
+    · exact SymS_map_rot g rows (fun r hr => by rw [hgl, hl r hr]) hs
+
+theorem acq_onsite_zero_lift (a r : PStr) (ho : ∀ j, j ≠ 0 → getQ a j = (false, false)) :
+    acq a ((false, false) :: r) = 0 := by
+  unfold acq
+  rw [acqSum_onsite_left a _ 0 ho, getQ_cons_zero, acqQ_id_right]; rfl
+
+theorem randomClifford_symS : ∀ (n : Nat) (tape : List Bool) (rows : List PStr) (rest : List Bool),
+    randomClifford n tape = some (rows, rest) →
+    rows.length = 2 * n ∧ (∀ r ∈ rows, r.length = n) ∧ SymS rows
+  | 0, tape, rows, rest, h => by
+    simp only [randomClifford, Option.some.injEq, Prod.mk.injEq] at h
+    obtain ⟨rfl, rfl⟩ := h
+    exact ⟨rfl, by simp, fun i j hi => by simp at hi⟩
+  | n + 1, tape, rows, rest, h => by
+    unfold randomClifford at h
+    split at h
+    · cases h
+    · rename_i g1 g2 t hpair
+      obtain ⟨ha, hl1, hl2, _⟩ := randomPair_spec (n + 1) tape t g1 g2 hpair
+      split at h
+      · rename_i hn0
+        simp only [Option.some.injEq, Prod.mk.injEq] at h
+        obtain ⟨rfl, rfl⟩ := h
+        refine ⟨by simp [hn0], ?_, ?_⟩
+        · intro r hr
+          simp only [List.mem_cons, List.not_mem_nil, or_false] at hr
+          rcases hr with rfl | rfl
+          · exact hl1
+          · exact hl2
+        · exact SymS_cons g1 g2 [] ha (by simp) (fun i j hi => by simp at hi)
+      · obtain ⟨d1, d2, d3, d4, d5, d6, d7⟩ := diag2_spec g1 g2 0 (hl1.trans hl2.symm) (by omega) ha
+        generalize diagonalize2 g1 g2 0 = D at h d1 d2 d3 d4 d5 d6 d7
+        obtain ⟨gens, g1', g2'⟩ := D
+        simp only at h d1 d2 d3 d4 d5 d6 d7
+        split at h
+        · cases h
+        · rename_i sub t' hsub
+          simp only [Option.some.injEq, Prod.mk.injEq] at h
+          obtain ⟨rfl, rfl⟩ := h
+          obtain ⟨sl, sr, ss⟩ := randomClifford_symS n t sub t' hsub
+          have ho1 : ∀ j, j ≠ 0 → getQ g1' j = (false, false) := by rw [d1]; exact unitZ_onsite _ _
+          have ho2 : ∀ j, j ≠ 0 → getQ g2' j = (false, false) := (isOnsite_iff g2' 0).1 d2
+          have hl1' : g1'.length = n + 1 := by rw [d1, Tr.length_unitZ, hl1]
+          have hab : acq g1' g2' = 1 := by
+            rw [d5, d6, acq_rotS gens g1 g2 d7 (hl1.trans hl2.symm), ha]
+          apply foldl_rot_spec (n + 1) (2 * (n + 1)) gens.reverse _
+            (fun g hg => by rw [d7 g (List.mem_reverse.1 hg), hl1])
+          · simp [sl]; omega
+          · intro r hr
+            simp only [List.mem_cons, List.mem_map] at hr
+            rcases hr with rfl | rfl | ⟨r', hr', rfl⟩
+            · exact hl1'
+            · rw [d4, hl1]
+            · simp [sr r' hr']
+          · apply SymS_cons g1' g2' _ hab _ (SymS_map_lift sub ss)
+            intro c hc
+            obtain ⟨r', _, rfl⟩ := List.mem_map.1 hc
+            exact ⟨acq_onsite_zero_lift g1' r' ho1, acq_onsite_zero_lift g2' r' ho2⟩
+
+/-! ## `random_pair`: the second string is uniform among the partners of the first -/
+
+theorem unflat_flat : ∀ g : PStr, unflat (flat g) = g
+  | [] => rfl
+  | q :: qs => by
+    show (q.1, q.2) :: unflat (flat qs) = q :: qs
+    rw [unflat_flat qs]
+
+theorem randomPair_flat (n : Nat) (g1 : PStr) (b2 : List Bool) (hg : g1.length = n) (hne : anyBit g1 = true)
+    (hb : b2.length = 2 * n) :
+    randomPair n (flat g1 ++ b2) = some ((g1, fixP g1 (unflat b2)), []) := by
+  have h2 : takeBits (2 * n) b2 = some (b2, []) := by
+    simpa using takeBits_append (2 * n) b2 [] hb
+  rw [randomPair_eq, takeBits_append (2 * n) (flat g1) b2 (by rw [Cp.length_flat, hg])]
+  simp only [h2, unflat_flat, resample_of_anyBit n _ g1 [] hne]
+
+/-- the other preimage of `h`: `h` with the correction applied at the first non-trivial qubit of `g1` -/
+def partner (g1 h : PStr) : PStr := setQ h (front g1) (flipQ (getQ g1 (front g1)) (getQ h (front g1)))
+
+theorem partner_partner (g1 h : PStr) : partner g1 (partner g1 h) = h := by
+  unfold partner
+  by_cases hi : front g1 < h.length
+  · rw [setQ_setQ, getQ_setQ_self _ _ _ hi, flipQ_flipQ, setQ_getQ]
+  · simp [setQ, List.set_eq_of_length_le (Nat.le_of_not_lt hi)]
+
+theorem fixP_eq_iff (g1 x h : PStr) (hl : g1.length = h.length) (hx : x.length = h.length) (hany : anyBit g1 = true)
+    (ha : acq g1 h = 1) : fixP g1 x = h ↔ x = h ∨ x = partner g1 h := by
+  constructor
+  · intro hf
+    unfold fixP at hf
+    split at hf
+    · right
+      rw [← hf]; exact (partner_partner g1 x).symm
+    · left; exact hf
+  · rintro (rfl | rfl)
+    · unfold fixP; rw [if_neg (by rw [ha]; decide)]
+    · have h0 : acq g1 (partner g1 h) = 0 := by
+        unfold partner; rw [acq_flip g1 h hl hany, ha]; rfl
+      unfold fixP
+      rw [if_pos h0]
+      exact partner_partner g1 h
+
+theorem flat_injective (a b : PStr) (h : flat a = flat b) : a = b := by
+  rw [← unflat_flat a, ← unflat_flat b, h]
+
+theorem randomPair_count (n : Nat) (g1 h : PStr) (hg : g1.length = n) (hh : h.length = n)
+    (hne : anyBit g1 = true) (ha : acq g1 h = 1) :
+    ((allBits (2 * n)).filter fun b2 => randomPair n (flat g1 ++ b2) == some ((g1, h), [])).length = 2 := by
+  have hlp : (partner g1 h).length = n := by unfold partner; rw [length_setQ, hh]
+  have hne' : h ≠ partner g1 h := by
+    intro he
+    have h0 : acq g1 (partner g1 h) = 0 := by
+      unfold partner; rw [acq_flip g1 h (hg.trans hh.symm) hne, ha]; rfl
+    rw [← he, ha] at h0; cases h0
+  have hnd : ([flat h, flat (partner g1 h)] : List (List Bool)).Nodup := by
+    simp only [List.nodup_cons, List.mem_cons, List.not_mem_nil, or_false, not_false_eq_true, List.nodup_nil,
+      and_true]
+    exact fun he => hne' (flat_injective _ _ he)
+  have hperm : ((allBits (2 * n)).filter fun b2 => randomPair n (flat g1 ++ b2) == some ((g1, h), [])).Perm
+      [flat h, flat (partner g1 h)] := (List.perm_ext_iff_of_nodup
+    (List.Nodup.sublist List.filter_sublist (St.nodup_allBits (2 * n))) hnd).2 (by
+    intro b
+    rw [List.mem_filter, ← St.mem_allBits]
+    simp only [List.mem_cons, List.not_mem_nil, or_false]
+    constructor
+    · rintro ⟨hb, hp⟩
+      rw [randomPair_flat n g1 b hg hne hb] at hp
+      simp only [beq_iff_eq, Option.some.injEq, Prod.mk.injEq, and_true, true_and] at hp
+      have hxl : (unflat b).length = h.length := by rw [Cp.length_unflat b n hb, hh]
+      rcases (fixP_eq_iff g1 (unflat b) h (hg.trans hh.symm) hxl hne ha).1 hp with hx | hx
+      · left; rw [← hx, Cp.flat_unflat b n hb]
+      · right; rw [← hx, Cp.flat_unflat b n hb]
+    · intro hb
+      have hbl : b.length = 2 * n := by
+        rcases hb with rfl | rfl
+        · rw [Cp.length_flat, hh]
+        · rw [Cp.length_flat, hlp]
+      refine ⟨hbl, ?_⟩
+      rw [randomPair_flat n g1 b hg hne hbl]
+      simp only [beq_iff_eq, Option.some.injEq, Prod.mk.injEq, and_true, true_and]
+      have hxl : (unflat b).length = h.length := by rw [Cp.length_unflat b n hbl, hh]
+      apply (fixP_eq_iff g1 (unflat b) h (hg.trans hh.symm) hxl hne ha).2
+      rcases hb with rfl | rfl
+      · left; exact unflat_flat _
+      · right; exact unflat_flat _)
+  rw [hperm.length_eq]
+  rfl
+
+end Rn
 
 end PC
